@@ -1,3 +1,4 @@
+-- properties: C04 C11
 /-
   C04 / C11 — the HTK container (stand-alone L1 model SfModel/Htk.lean; helpers SfProofs/HtkImage.lean,
   SfProofs/Small2Session.lean).  Property theorems only.
